@@ -46,9 +46,10 @@ func (c *C09Case) faultyRule() *dsl.Rule {
 }
 
 // workout is spliced into every healthy rule: after a contained fault the ordinary access
-// paths (map / slice / array element stores, field stores, locals, calls) must still work,
+// paths (map / slice / array element stores, field stores, locals, calls, comparisons and
+// arithmetic between signed, unsigned and float fields) must still work,
 // in the same call and in later calls.
-const workout = "  hm[\"k1\"] = 1\n  hm[\"k2\"] += 2\n  hsl[0] = 2\n  HW.N = 3\n  HW.M[\"k3\"] = 4\n  HW.Arr[1] = 5\n  hx = ok(1) + two(1, 2)\n  HO.Add(1)\n  hmi[2] = 5\n"
+const workout = "  hm[\"k1\"] = 1\n  hm[\"k2\"] += 2\n  hsl[0] = 2\n  HW.N = 3\n  HW.M[\"k3\"] = 4\n  HW.Arr[1] = 5\n  hx = ok(1) + two(1, 2)\n  HO.Add(1)\n  hmi[2] = 5\n  if HW.U < HW.N && HW.F < HW.N {\n    hx2 = HW.N + HW.U\n  }\n"
 
 func (c *C09Case) text() string {
 	var sb strings.Builder
